@@ -79,9 +79,73 @@ def inlinable_special(g):
 def standalone(g):
     """is g also analysed as a function of its own?  Non-public helpers and free helper functions that are inlined at
     their call sites are judged in the context of each caller only; public members stay entry points."""
-    if not inlinable(g) or g.is_lambda:
+    if g is not None and g.is_lambda:
+        return not closure_runs_only_in_inlined_helper(g)
+    if not inlinable(g):
         return True
     return bool(g.rec) and g.access == "public"
+
+
+def closure_runs_only_in_inlined_helper(g):
+    """g is the call operator of a closure that the creating function hands directly to a helper which is inlined
+    there, and that helper does nothing with the parameter but call it (`return with_lock([&] { ... });`).  The body then
+    runs exactly where the inlined helper invokes it and is judged there - not a second time as a function of its own
+    with the state of the place where the closure is written down."""
+    key = "_only_in_helper"
+    if key in g.__dict__:
+        return g.__dict__[key]
+    g.__dict__[key] = False
+    par = g.unit.fn_by_id.get(g.lambda_parent) if g.lambda_parent else None
+    if par is None or par.invalid:
+        return False
+    lam = None
+    for st in par.stmts.values():
+        if st["k"] == "LambdaExpr" and g.id in st.get("call_ops", []):
+            lam = st
+    if lam is None:
+        return False
+    cur = lam
+    call = None
+    for _ in range(12):
+        p = par.par(cur)
+        if p is None:
+            return False
+        if p["k"] in ("ExprWithCleanups", "CXXBindTemporaryExpr", "MaterializeTemporaryExpr", "ImplicitCastExpr", "ParenExpr", "CXXFunctionalCastExpr"):
+            cur = p
+            continue
+        if p["k"] in ("CallExpr", "CXXMemberCallExpr"):
+            call = p
+        break
+    if call is None or cur["id"] not in call.get("args", []):
+        return False
+    h = par.unit.fn_by_id.get((call.get("callee") or {}).get("id"))
+    if h is None or h.is_lambda or not inlinable(h):
+        return False
+    i = call["args"].index(cur["id"])
+    if i >= len(h.params):
+        return False
+    pid = h.params[i].get("id")
+    uses = [st for st in h.stmts.values() if st["k"] == "DeclRefExpr" and st["d"].get("id") == pid]
+    if not uses:
+        return False
+    for u in uses:
+        c = u
+        ok = False
+        for _ in range(8):
+            p = h.par(c)
+            if p is None:
+                break
+            if p["k"] in ("ImplicitCastExpr", "ParenExpr", "MaterializeTemporaryExpr") or \
+                    (p["k"] == "CallExpr" and (p.get("callee") or {}).get("fq") in ("std::forward", "std::move")):
+                c = p
+                continue
+            if p["k"] == "CXXOperatorCallExpr" and p.get("op") == "()" and p["args"] and p["args"][0] == c["id"]:
+                ok = True
+            break
+        if not ok:
+            return False
+    g.__dict__[key] = True
+    return True
 
 
 def GMLC_PREFIX():
